@@ -200,13 +200,18 @@ def run(tier):
             [("%s %s %s\r\n" % (m, p_, v), t, ["\r\n"]) for m in ("GET", "HEAD") for v in ("HTTP/1.0", "HTTP/1.1")
              for p_ in ("/wap/a", "/wap", "/wap/", "/wap/README", "/wap?x=1", "/wapx", "/a.txt", "/") for t in (False, True)]
             + [("GET %s HTTP/1.0\r\n" % p_, False, WAPH) for p_ in ("/", "/a.txt", "/wap/a", "/wapx")]
+            + [("GET %s HTTP/1.0\r\n" % p_, False, [acc, dev, "\r\n"]) for p_ in ("/", "/a.txt")
+               for acc in ("Accept: text/vnd.wap.wml, text/html\r\n", "Accept: text/vnd.wap.wml\r\n", "Accept:text/vnd.wap.wml\r\n",
+                           "Accept:  text/vnd.wap.wml \r\n", "Accept: text/html,text/vnd.wap.wml\r\n", "accept: image/gif, text/vnd.wap.wml;q=0.9\r\n",
+                           "Accept: xtext/vnd.wap.wml\r\n", "Accept: text/html\r\n")
+               for dev in ("X-Wap-Profile: \"http://wap.example/ua.xml\"\r\n", "X-Up-Devcap-Max-Pdu: 1400\r\n", "x-wap-profile:p\r\n", "User-Agent: x\r\n")]
             + [(l, t, []) for l in ("h / 0\r\n", "example.com /a 12\r\n", "gemini://h/p\r\n", "/a.txt\t+\r\n", "/a.txt\t$\r\n",
                                     "/a.txt\tq\t+\r\n", "/a.txt\r\n", "/a.txt\tq\r\n", "\r\n") for t in (False, True)]):
         data = (line + "".join(hdrs_)).encode("utf-8", "surrogateescape")
         cases.append({"line": line, "hdrs": hdrs_, "tls": tls_, "plist": list(SHIPPED), "waptop": "/wap", "data": gen.lat(data)})
     # the same connection again later in the same process, and twice in a row: the answer is a function of
     # (line, headers, TLS, configured list), not of what the process has classified before
-    again = [dict(c) for c in cases[-120:]] + [dict(c) for c in cases if "/wap" in c["line"] or "HTTP/" in c["line"]][:200] + \
+    again = [dict(c) for c in cases[-190:]] + [dict(c) for c in cases if "/wap" in c["line"] or "HTTP/" in c["line"]][:200] + \
         [dict(c) for c in rng.sample(cases, 250)]
     doubled = []
     for c in again:
